@@ -405,6 +405,35 @@ def _upgrade(ctx, prog):
            "upgrade: merge_dicts(user settings, defaults, soft=True)" if ok
            else f"upgrade merges ({fmt(first)[:60]}, {fmt(second)[:60]}, "
                 f"soft={fmt(soft)})", key="C18.4:upgrade-call")
+    # "without changing any value the user has set": on the way to the
+    # merge nothing stores into the loaded settings, except under a test
+    # that the key is missing (helpers of the settings module looked through)
+    loaded = [x for x in (first.walk() if first is not None else [])
+              if is_call_to(x, "json.loads", "json.load")]
+    stores = []
+    for e in r.of_kind("setitem", all_depths=True) if True else []:
+        base = e.data["base"]
+        if loaded and any(z is loaded[0] for z in base.walk()):
+            missing = any(
+                a.op == "cmp" and a.args[0] in ("NotIn", "In") and
+                a.args[1] is e.data["index"]
+                for a in tm.atoms(e.live))
+            if not (missing and tm.fold(
+                    e.live, lambda a: True if (
+                        a.op == "cmp" and a.args[0] == "In" and
+                        a.args[1] is e.data["index"]) else (
+                        False if (a.op == "cmp" and a.args[0] == "NotIn"
+                                  and a.args[1] is e.data["index"])
+                        else None)) is False):
+                stores.append(e)
+    ctx.ob("C18.4", stores[0] if stores else f, not stores,
+           "upgrade: no value of the loaded settings is overwritten before "
+           "the soft merge" if not stores else
+           f"upgrade: {fmt(stores[0].data['base'])[:50]}["
+           f"{fmt(stores[0].data['index'])[:30]}] is overwritten at "
+           f"{stores[0].where} for keys the user's file already has — a "
+           f"value the user has set is changed by the upgrade",
+           key="C18.4:upgrade-keeps-user-values", nontrivial=bool(stores))
     wr = [e for e in r.of_kind("call")
           if (e.data.get("name") or "").endswith("write_to_json_file")]
     ok = bool(wr) and (wr[0].data["bound"] or {}).get("dictionary") is \
@@ -911,6 +940,60 @@ def _generate(ctx, prog):
             ctx.ob("C18.7", e, True, "generate: an option without values "
                    "becomes the flag value true",
                    key="C18.7:flag", nontrivial=False)
+    # the key written for an option is the option's own name ("a generated
+    # config has the same effect as passing those arguments"): evaluated for
+    # every real option of the evo_ape / evo_rpe / evo_traj parsers — a
+    # rewriting of names (prefix stripping, negation) must leave them alone
+    from ..lib import const_eval, _NoValue
+    from ..known_options import KNOWN_OPTIONS
+    names = set(KNOWN_OPTIONS)
+    for (_, _, opts, kws) in parser_arguments(prog):
+        for o in opts:
+            if o.startswith("--"):
+                names.add(o[2:])
+    loops = [e for e in r.of_kind("loop") if e.depth == 0]
+    keys = [(e, e.data["index"]) for e in r.of_kind("setitem")
+            if e.depth == 0]
+    bad, undecided = [], []
+    for e, k in keys:
+        toks = [x for x in k.walk() if x.op == "elem" and
+                any(x.args[0] is tm.param(g.params[0]) or
+                    (x.args[0].op == "call" and tm.param(g.params[0]) in
+                     x.args[0].args[1]) for _ in (0,))]
+        if not toks:
+            continue
+        for nm in sorted(names):
+            env_ = {t_: "--" + nm for t_ in toks}
+
+            def atom(a, env_=env_):
+                try:
+                    v = const_eval(a, env_)
+                    return bool(v)
+                except _NoValue:
+                    return None
+            if tm.fold(e.live, atom) is False:
+                continue        # this store is not taken for that name
+            try:
+                got = const_eval(k, env_)
+            except _NoValue as ex:
+                undecided.append(str(ex))
+                break
+            if got != nm:
+                bad.append((e, nm, got))
+    if undecided and not bad:
+        ctx.unrecognised("C18.7", g, f"generate: key expression not "
+                         f"evaluable ({undecided[0]})",
+                         key="C18.7:key-is-name")
+    else:
+        ctx.ob("C18.7", bad[0][0] if bad else g, not bad,
+               f"generate: the key written for --<name> is <name> for all "
+               f"{len(names)} option names of the parsers" if not bad else
+               f"generate: --{bad[0][1]} is stored under the key "
+               f"{bad[0][2]!r}: the generated config does not set the "
+               f"option that was given"
+               + (f" (also: {sorted({b[1] for b in bad})[:4]})"
+                  if len(bad) > 1 else ""),
+               key="C18.7:key-is-name")
     # sibling: set_config and generate both produce int for integral tokens
     ctx.ob("C18.7", g, has_int and has_float,
            "generate and `set` agree on the numeric result types "
